@@ -89,6 +89,28 @@ STATELESS_DECORATORS = {'staticmethod', 'classmethod', 'property', 'wraps', 'fun
 REPO_FUNCTIONS = set()
 
 
+def _commutative_body(stmts):
+    """Loop bodies whose iterations commute whatever the order: deletions of dictionary entries, set add / discard /
+    remove / update, dict.pop(key, ...), guarded by side-effect-free tests."""
+    for st in stmts:
+        if isinstance(st, (ast.Pass, ast.Continue)):
+            continue
+        if isinstance(st, ast.Delete) and all(isinstance(t, ast.Subscript) for t in st.targets):
+            continue
+        if isinstance(st, ast.Expr) and isinstance(st.value, ast.Call) and isinstance(st.value.func, ast.Attribute) and \
+                st.value.func.attr in ('add', 'discard', 'remove', 'update', 'pop') and \
+                not any(isinstance(n, ast.Call) for a in st.value.args for n in ast.walk(a)):
+            if st.value.func.attr == 'pop' and not st.value.args:
+                return False
+            continue
+        if isinstance(st, ast.If) and not any(isinstance(n, ast.Call) and isinstance(n.func, ast.Attribute) and
+                                              n.func.attr in MUTATORS for n in ast.walk(st.test)):
+            if _commutative_body(st.body) and _commutative_body(st.orelse):
+                continue
+        return False
+    return True
+
+
 class Finding:
     def __init__(self, kind, where, what):
         self.kind, self.where, self.what = kind, where, what
@@ -126,6 +148,43 @@ def analyse_file(path, rel):
                     continue
                 findings.append(Finding('module-state', f'{rel}::{node.name}:{node.lineno}',
                                         f'decorator {name} may keep state between calls'))
+    # (e) class-level mutable attributes (a dict / list / set in the class body) that methods mutate through self /
+    # cls / the class name without the instance ever rebinding them: one object shared by all instances and all runs
+    for cls_node in [n for n in ast.walk(tree) if isinstance(n, ast.ClassDef)]:
+        mutables = set()
+        for st in cls_node.body:
+            if isinstance(st, (ast.Assign, ast.AnnAssign)) and st.value is not None and isinstance(
+                    st.value, (ast.Dict, ast.List, ast.Set, ast.DictComp, ast.ListComp, ast.SetComp)) or (
+                    isinstance(st, (ast.Assign, ast.AnnAssign)) and isinstance(st.value, ast.Call) and
+                    (_dotted(st.value.func) or '').split('.')[-1] in ('dict', 'list', 'set', 'OrderedDict', 'defaultdict', 'deque', 'Counter')):
+                for t in (st.targets if isinstance(st, ast.Assign) else [st.target]):
+                    if isinstance(t, ast.Name):
+                        mutables.add(t.id)
+        if not mutables:
+            continue
+        rebound = set()
+        for n in ast.walk(cls_node):
+            if isinstance(n, (ast.Assign, ast.AnnAssign, ast.AugAssign)):
+                for t in (n.targets if isinstance(n, ast.Assign) else [n.target]):
+                    if isinstance(t, ast.Attribute) and isinstance(t.value, ast.Name) and t.value.id == 'self':
+                        rebound.add(t.attr)
+        shared = mutables - rebound
+        for meth in [m for m in ast.walk(cls_node) if isinstance(m, (ast.FunctionDef, ast.AsyncFunctionDef))]:
+            for n in ast.walk(meth):
+                tgt = None
+                if isinstance(n, (ast.Assign, ast.AugAssign, ast.Delete)):
+                    for t in (n.targets if isinstance(n, (ast.Assign, ast.Delete)) else [n.target]):
+                        if isinstance(t, ast.Subscript):
+                            tgt = t.value
+                elif isinstance(n, ast.Call) and isinstance(n.func, ast.Attribute) and n.func.attr in MUTATORS:
+                    tgt = n.func.value
+                while isinstance(tgt, ast.Subscript):
+                    tgt = tgt.value
+                if isinstance(tgt, ast.Attribute) and isinstance(tgt.value, ast.Name) and tgt.attr in shared and \
+                        tgt.value.id in ('self', 'cls', cls_node.name):
+                    n_sites += 1
+                    findings.append(Finding('module-state', f'{rel}::{meth.name}:{n.lineno}',
+                                            f'mutation of the class-level attribute {cls_node.name}.{tgt.attr}'))
     # closure state: names bound in an enclosing function and mutated by a nested one persist between calls of the
     # nested function (hand-written memoisation)
     enclosing_locals = {}
@@ -308,7 +367,9 @@ def analyse_file(path, rel):
                 if _is_set_expr(inner, setnames):
                     n_sites += 1
                     owner = parents.get(node) if isinstance(node, ast.comprehension) else node
-                    if not (isinstance(node, ast.comprehension) and (isinstance(owner, ast.SetComp) or inside_insensitive(owner))):
+                    if isinstance(node, ast.For) and _commutative_body(node.body):
+                        pass        # e.g. `for k in unused: del dic[k]`: the order of the iterations cannot matter
+                    elif not (isinstance(node, ast.comprehension) and (isinstance(owner, ast.SetComp) or inside_insensitive(owner))):
                         findings.append(Finding('set-order', where(it), f'iteration over the set {ast.unparse(inner)[:60]}'))
             if isinstance(node, ast.Call):
                 f = _dotted(node.func)
